@@ -23,6 +23,14 @@ CHECKS = {
         note="Trusted: spec/Messages.tla + Api.tla as protocol; TLC; result projection by field copy. TZ=UTC. Documented don't-cares are listed in the evidence assumptions.",
         design="4/C02",
     ),
+    "C04": dict(
+        category="model_checking",
+        technique="TLC trace validation (Trace_Codec / Trace_Api conjuncts NoPanic, RenderOK) of recovered-panic outcome records from systematic byte-string and argument enumeration through every decode entry point, operation and the event handler",
+        text="Totality: the specification gives every decode entry point and operation a non-panic outcome for every input, so a recorded panic (recovered by the harness) or a panicking String()/JSON rendering of a returned value is a trace the specification rejects. "
+             "Inputs: every length 0..80 (+ selected to 2048) x 6 content classes and every single byte of a valid message over all 256 values, for all 65 message types; arbitrary datagrams returned to every operation and the listener; extreme argument tuples.",
+        note="Trusted: recover() as panic observer; TLC. The specification contributes the outcome classes and (where inputs are in C02/C05's domain) the values; it cannot itself observe a Go panic.",
+        design="4/C04",
+    ),
     "C05": dict(
         category="model_checking",
         technique="TLC trace validation (Trace_Codec: EncodedOK / decoded = value / slack independence / dispatch table) of codec calls on all 65 message types in child processes per time zone; slack positions exported from the specification",
